@@ -5,7 +5,7 @@
    FailCircuit / DeleteCircuits calls, with every transaction succeeding or
    failing, and restarts at any point. *)
 From stdpp Require Import gmap.
-From LV Require Import Circuit.Model Circuit.Proofs.
+From LV Require Import Circuit.Model Circuit.Spec Circuit.Proofs Circuit.RestartProofs Circuit.RollbackProofs.
 Local Open Scope N_scope.
 
 (* Between two CommitCircuits memory phases that both decide Add for the same
@@ -38,13 +38,18 @@ Theorem C07_one_response_per_run : forall ins c' tr k pre e1 mid e2 post,
   exists x, x ∈ mid /\ (k ∈ ev_removed x \/ ev_restart x = true).
 Proof. exact one_response_per_run. Qed.
 
-(* Restart, for ANY disk contents and any closed/active/resolution-message
-   configuration.  PARTIAL: the pending side, the purge rule for circuits and
-   the Fail-not-Add decision are proved; the characterisation of the keystones
-   that survive (opened = disk keystones below NextLocalHtlcIndex, under the
-   contiguity hypothesis) is exercised by the correspondence run only. *)
-Theorem C07_restart_exact_partial : forall rc d nxt m' d',
+(* Restart (NewCircuitMap on the same DB), for ANY disk contents and any
+   closed / active / resolution-message configuration.
+
+   Hypothesis [contiguous_on_disk] is the LINK DISCIPLINE TrimOpenCircuits relies
+   on ("outgoing htlc id's must be assigned in order, so there should never be
+   disjoint segments of keystones to trim", circuit_map.go:706): the surviving
+   keystones of an active channel at or above its NextLocalHtlcIndex form one
+   contiguous block starting there.  It is checked on every real run by the
+   python predicate; without it the clause is FALSE (C07_restart_gap_refuted). *)
+Theorem C07_restart_exact : forall rc d nxt m' d',
   restart rc d nxt = (m', d') ->
+  contiguous_on_disk rc d ->
   (* nothing is closing after a restart *)
   closed m' = ∅ /\
   (* durable circuits = old ones minus the purged ones ... *)
@@ -63,31 +68,77 @@ Theorem C07_restart_exact_partial : forall rc d nxt m' d',
      keystone, FAIL once its keystone was rolled back *)
   (forall k, pending m' !! k <> None ->
      exists o, found_obj m' k = Some o /\ o_loaded o = true /\
-       classify (Some o) = match o_out o with Some _ => ADrop | None => AFail end).
-Proof.
-  intros rc d nxt m' d' H.
-  destruct (restart_pending _ _ _ _ _ H) as (A & B & C & D).
-  split; [exact A|]. split; [exact B|]. split; [intros k; apply purged_add_spec|].
-  split; [exact C|]. split; [exact D|].
-  intros k Hk. eapply restart_classify; eauto.
-Qed.
+       classify (Some o) = match o_out o with Some _ => ADrop | None => AFail end) /\
+  (* SURVIVING KEYSTONES: a circuit stays open exactly if its keystone survived the
+     closed-channel purge, its circuit is durable, and its outgoing HtlcID is below
+     NextLocalHtlcIndex of its (active, non-pending) channel ... *)
+  (forall (o : key) id, opened m' !! o = Some id <->
+     exists k, id = inr k /\ live_ks rc d o k /\ trimmed_by (rc_active rc) o = false) /\
+  (* ... the others are rolled back ON DISK as well (a stray keystone without circuit
+     is pruned only for hop.Source) ... *)
+  (forall o k : key, d_ks d' !! o = Some k <->
+     d_ks d !! o = Some k /\ purge_ks_pred rc (o, k) = false /\
+     (d_adds d' !! k <> None -> trimmed_by (rc_active rc) o = false) /\
+     (d_adds d' !! k = None -> o.1 <> 0)) /\
+  (* ... and the circuit's Outgoing field: nil as soon as one of its keystones was
+     rolled back, else the last keystone in bbolt key order *)
+  (forall (k : key) id ob, pending m' !! k = Some id -> get_obj m' id = Some ob ->
+     o_out ob = if existsb (trimmed_by (rc_active rc)) (outs_of (d_ks (clean rc d)) k) then None
+                else max_key (outs_of (d_ks (clean rc d)) k)) /\
+  (* with one keystone per circuit (link discipline) the circuit is half-open
+     exactly if it is not opened: it is then failed back, not lost or doubled *)
+  (single_keystone (d_ks d) ->
+   forall (k : key) id ob (o : key), pending m' !! k = Some id -> get_obj m' id = Some ob ->
+     (o_out ob = Some o <-> opened m' !! o = Some (inr k))).
+Proof. exact restart_exact. Qed.
 
-(* A failed transaction of CommitCircuits / OpenCircuits leaves memory (all
-   maps; no existing object touched), disk and the caller set as before the
-   call, from ANY state.  PARTIAL: the same statement for DeleteCircuits (which
-   needs the well-formedness wf_out of the state) is checked on the
-   implementation by the harness but not proved; TrimOpenCircuits has no
-   rollback in the code (see Examples.trim_failure_not_rolled_back). *)
-Theorem C07_rollback_partial : forall c t,
+(* The contiguity hypothesis is necessary: with a gap in the outgoing HtlcIDs the
+   scan of TrimOpenCircuits stops early and a keystone at or above
+   NextLocalHtlcIndex (an HTLC that never reached a commitment) survives the
+   restart, in memory and on disk; its circuit stays open and a re-forward is
+   dropped.  The history is replayed on the real circuitMap by the harness
+   (witness case "gap"). *)
+Theorem C07_restart_gap_refuted :
+  exists ins rc (o k : key),
+    let c := (run init ins).1 in
+    let '(m', d') := restart rc (c_disk c) (next (c_mem c)) in
+    ~ contiguous_on_disk rc (c_disk c) /\
+    trimmed_by (rc_active rc) o = true /\
+    opened m' !! o = Some (inr k) /\ d_ks d' !! o = Some k /\
+    classify (found_obj m' k) = ADrop.
+Proof. exact restart_gap_refuted. Qed.
+
+(* A failed transaction of CommitCircuits / OpenCircuits / DeleteCircuits leaves
+   memory, disk and the caller set as before the call.  For CommitCircuits "memory
+   as before" is [mem_same]: every map equal, no existing object touched (the
+   circuits the caller allocated stay behind, unreachable).  DeleteCircuits needs
+   the well-formedness [wf_out] of the memory it starts from (a pending circuit that
+   claims an outgoing key is the circuit opened under that key); wf_out is checked
+   on the implementation's state before every failed delete by the python predicate,
+   and fails only after API misuse the link cannot produce (C07 notes, hazards 1/4).
+   TrimOpenCircuits has NO rollback in the code: after a failed transaction it
+   returns the error, memory stays trimmed and the disk keeps the keystones. *)
+Theorem C07_rollback : forall c t,
   c_thr c !! t = None ->
   (forall cs c1 k1, step c (ICall t (CCommit cs)) = (c1, OYield k1) ->
      let c3 := (step (step c1 (IDisk t false)).1 (IMem t)).1 in
      mem_same (c_mem c) (c_mem c3) /\ c_disk c3 = c_disk c /\ c_thr c3 = c_thr c) /\
   (forall kss c1 k1, step c (ICall t (COpen kss)) = (c1, OYield k1) ->
      let c3 := (step (step c1 (IDisk t false)).1 (IMem t)).1 in
-     c_mem c3 = c_mem c /\ c_disk c3 = c_disk c /\ c_thr c3 = c_thr c).
+     c_mem c3 = c_mem c /\ c_disk c3 = c_disk c /\ c_thr c3 = c_thr c) /\
+  (wf_out (c_mem c) ->
+   forall ks c1 k1, step c (ICall t (CDelete ks)) = (c1, OYield k1) ->
+     let c3 := (step (step c1 (IDisk t false)).1 (IMem t)).1 in
+     c_mem c3 = c_mem c /\ c_disk c3 = c_disk c /\ c_thr c3 = c_thr c) /\
+  (forall ch s c1 outs, step c (ICall t (CTrim ch s)) = (c1, OYield (KTrim outs)) ->
+     let '(c3, o) := step (step c1 (IDisk t false)).1 (IMem t) in
+     o = OErr E_DISK /\ c_mem c3 = c_mem c1 /\ c_disk c3 = c_disk c /\ c_thr c3 = c_thr c /\
+     outs <> [] /\
+     forall x, x ∈ outs -> opened (c_mem c) !! x <> None /\ opened (c_mem c3) !! x = None).
 Proof.
-  intros c t Ht. split.
+  intros c t Ht. split; [|split; [|split]].
   - intros cs c1 k1 H. exact (rollback_commit_cfg c t cs c1 k1 Ht H).
   - intros kss c1 k1 H. exact (rollback_open_cfg c t kss c1 k1 Ht H).
+  - intros Hwf ks c1 k1 H. exact (rollback_delete_cfg c t ks c1 k1 Hwf Ht H).
+  - intros ch s c1 outs H. exact (trim_no_rollback c t ch s c1 outs Ht H).
 Qed.
